@@ -18,7 +18,7 @@ var c17 = core.Register(&core.Prop{
 	Rule: "strings over {empty, ASCII, repeated substrings, multi-byte, white space} x every integer position from below zero to beyond the length for each of the 18 string/list builtins, checked against byte-wise reference functions and through the algebraic laws relating them; " +
 		"non-trivial = non-empty subject string or list; distinct by (builtin, arguments)",
 	Assumptions: []string{
-		"lengths and positions are byte counts (as the slicing laws left+right==s require); pads are one byte; mid with i > j, replace with an empty pattern, trim of non-ASCII white space and case mapping of invalid UTF-8 are unspecified",
+		"lengths and positions are byte counts (as the slicing laws left+right==s require); pads are one byte; mid with i > j may be an error or the empty string (never another piece of the text); replace with an empty pattern, trim of non-ASCII white space and case mapping of invalid UTF-8 are unspecified",
 		"Go's regexp package is the RE2 reference",
 	},
 	Shards: func(tier string) int { return pickTier(tier, 8, 16) },
@@ -209,7 +209,16 @@ var c17Check = core.Mon(c17, "string-builtins", func(w *core.W, c *StrFnCase) {
 		expect("endWith(s, right(s, n))", true)
 	case "mid":
 		if c.N > c.M {
-			w.Skip("mid-start-after-end")
+			// "the slice from i to j" with i behind j: there is no such piece of s - an error or the empty string, never some
+			// other part of the text
+			v, err, panicked, pv := resolveIn(data, "mid(s, n, m)")
+			w.Eval(1)
+			w.Count("mid_start_after_end")
+			if panicked {
+				w.Violation("string-builtins", "C17/escaped-panic", c, nil, fmt.Sprint(pv), "mid(s, n, m) with "+args)
+			} else if err == nil && v != "" {
+				w.Violation("string-builtins", "C17/mid-inverted-range", c, "an error or the empty string", show(v), "mid(s, n, m) with "+args)
+			}
 			return
 		}
 		expect("mid(s, n, m)", s[clamp(c.N, n):clamp(c.M, n)])
